@@ -66,3 +66,18 @@ var (
 
 // VerifPow10 returns 10**n as a Word (n < DigitsPerWord).
 func VerifPow10(n uint) Word { return Word(pow10(n)) }
+
+// VerifMagicRow is one row of the division-by-10**n table used by the shift kernels.
+type VerifMagicRow struct {
+	D, M      uint64
+	Pre, Post byte
+}
+
+// VerifMagic returns the division-by-10**n "magic number" table (64-bit words).
+func VerifMagic() []VerifMagicRow {
+	rows := make([]VerifMagicRow, len(pow10DivTab64))
+	for i, m := range pow10DivTab64 {
+		rows[i] = VerifMagicRow{m.d, m.m, m.pre, m.post}
+	}
+	return rows
+}
